@@ -204,7 +204,8 @@ theorem open_direction_any_order (tol : K) (htol : 0 < tol) (c1 c2 : Bool) (p1 p
             max (raisedMult (max p1 p2 - p1) e.2.1) (raisedMult (max p1 p2 - p2) e.2.2))))
       ∧ r.2.basis i = r.1.basis i
       ∧ SameMap m a.1 r.1 ∧ SameMap m a.2 r.2
-      ∧ (∀ k : Fin m, k ≠ i → r.1.basis k = a.1.basis k ∧ r.2.basis k = a.2.basis k) := by
+      ∧ (∀ k : Fin m, k ≠ i → r.1.basis k = a.1.basis k ∧ r.2.basis k = a.2.basis k)
+      ∧ C06.WF r.1 m ∧ C06.WF r.2 m := by
   set p := max p1 p2 with hp
   have hle1 : p1 ≤ p := le_max_left _ _
   have hle2 : p2 ≤ p := le_max_right _ _
@@ -238,12 +239,12 @@ theorem open_direction_any_order (tol : K) (htol : 0 < tol) (c1 c2 : Bool) (p1 p
     rw [hL2, List.map_map]; rfl
   have hp2' : 2 ≤ p := le_trans hp1 hle1
   have hsep2 : Separated tol (clampedU x0 xl (L2.map (·.1))) := by rw [e0]; exact hsep
-  obtain ⟨r, _, _, hSM, hrb1, hrb2, hm1, hm2, _, _, hkr⟩ := open_direction_same_order tol htol c1 c2 p hp2' x0 xl
+  obtain ⟨r, _, _, hSM, hrb1, hrb2, hm1, hm2, hwr1, hwr2, hkr⟩ := open_direction_same_order tol htol c1 c2 p hp2' x0 xl
     L2 hsep2 i hi (o1, o2) hwo1 hwo2 (by rw [e0, e1]; exact hbo1) (by rw [e0, e2]; exact hbo2)
   have hoo1 : ((o1, o2).1.basis i).order = p := by show (o1.basis i).order = p; rw [hbo1]; rfl
   have hoo2 : ((o1, o2).2.basis i).order = p := by show (o2.basis i).order = p; rw [hbo2]; rfl
   rw [hoo1, hoo2, max_self] at hSM
-  refine ⟨(o1, o2), r, hSP, hSO, by rw [ho1, ho2]; exact hSM, ?_, hrb2, hs1.trans hm1, hs2.trans hm2, ?_⟩
+  refine ⟨(o1, o2), r, hSP, hSO, by rw [ho1, ho2]; exact hSM, ?_, hrb2, hs1.trans hm1, hs2.trans hm2, ?_, hwr1, hwr2⟩
   · rw [hrb1, e0, e3]
   · intro k hk
     exact ⟨((hkr k hk).1).trans (hk1 k hk), ((hkr k hk).2).trans (hk2 k hk)⟩
